@@ -297,10 +297,82 @@ class Discharger:
         return self._S[id(mir)]
 
     def try_discharge(self, s):
+        r = self._try(s)
+        if r or s.extra.get("ctx"):
+            return r
+        return self.try_in_callers(s)
+
+    def callers_of(self, body):
+        if not hasattr(self, "_callers"):
+            self._callers = {}
+            for b in self.unit.bodies:
+                for c in b.calls():
+                    for k in (c.callee.get("resolved_dpath"), c.callee.get("dpath")):
+                        if k:
+                            self._callers.setdefault(k, [])
+                            if (b, c) not in [(x, y) for x, y in self._callers[k]]:
+                                self._callers[k].append((b, c))
+                            break
+        return self._callers.get(body.dpath, [])
+
+    def try_in_callers(self, s):
+        """C: an obligation of a crate-private helper that depends on its arguments is examined at each call site
+        (one level of inlining): arguments are replaced by the caller's expressions and the caller's dominating
+        conditions are added."""
+        b = s.body
+        if b.j.get("vis") != "Restricted" or b.kind not in ("Fn", "AssocFn") or b.impl_trait or b.in_trait:
+            return None
+        if s.kind not in ("assert", "call"):
+            return None
+        S = self.S(s.mir)
+        t = s.extra["term"]
+        ops_key = "ops" if s.kind == "assert" else "args"
+        exprs = [sym.norm(S.operand(o)) for o in t[ops_key]]
+        if not any(x[0] == "arg" for e in exprs for x in sym.walk(e)):
+            return None
+        callers = self.callers_of(b)
+        if not callers:
+            return None
+        own_conds = dom_conditions(s.mir, s.bi, S)
+        reasons = []
+        for cb, call in callers:
+            CS = self.S(cb.mir)
+            amap = {i + 1: sym.norm(CS.operand(a)) for i, a in enumerate(call.args)}
+
+            def sub(e):
+                if not isinstance(e, tuple) or not e or not isinstance(e[0], str):
+                    return e
+                if e[0] == "arg":
+                    return amap.get(e[1], e)
+                if e[0] == "call":
+                    return ("call", e[1], e[2], tuple(sub(a) for a in e[3]), call.bi)
+                out = []
+                for x in e:
+                    if isinstance(x, tuple) and x and isinstance(x[0], str):
+                        out.append(sub(x))
+                    elif isinstance(x, tuple):
+                        out.append(tuple(sub(y) for y in x))
+                    else:
+                        out.append(x)
+                return tuple(out)
+
+            term = dict(t)
+            term[ops_key] = [{"k": "expr", "e": sub(e), "ty": self.operand_ty(s.mir, o)} for e, o in zip(exprs, t[ops_key])]
+            ps = Site(cb, cb.mir, call.bi, s.kind, s.what, call.line, {"term": term, "ctx": True, "extra_conds": [(sub(e), v, call.bi) for e, v, _ in own_conds]})
+            r = self._try(ps)
+            if not r:
+                return None
+            reasons.append("%s: %s" % (cb.npath.split("::")[-1], r))
+        return "C: holds in the context of each of its %d call sites (%s)" % (len(callers), "; ".join(sorted(set(reasons)))[:300])
+
+    def _try(self, s):
         mir = s.mir
         S = self.S(mir)
         t = s.extra["term"]
-        conds = dom_conditions(mir, s.bi, S)
+        conds = dom_conditions(mir, s.bi, S) + list(s.extra.get("extra_conds", ()))
+        r = self.arith_discharge(s, S, t, conds)
+        if r:
+            return r
         if s.kind == "assert":
             ops = [sym.norm(S.operand(o)) for o in t["ops"]]
             msg = t["msg"]
@@ -463,6 +535,49 @@ class Discharger:
                 return "excluded: tree::command::Todo is the documented placeholder handler that panics by design"
         return None
 
+    def arith_discharge(self, s, S, t, conds, subst=None):
+        """A: the arithmetic obligation of the site follows from the dominating conditions and library axioms
+        (difference-constraint entailment, sa/rules/arith.py) - independent of how the guard is spelled."""
+        from . import arith
+        mir = s.mir
+        N = (lambda o: subst(sym.norm(S.operand(o)))) if subst else (lambda o: sym.norm(S.operand(o)))
+        ex = lambda e: self.expand(S, e)
+        if s.kind == "assert" and t["msg"] in ("Overflow(Sub)", "Overflow(Add)"):
+            a, b = [N(o) for o in t["ops"]]
+            aty = self.operand_ty(mir, t["ops"][0]) or self.operand_ty(mir, t["ops"][1])
+            if aty not in arith.TYMAX:
+                return None
+            F = arith.build(conds, [a, b], ex, unsigned=[a, b])
+            if t["msg"] == "Overflow(Sub)":
+                if F.proves_ge(arith.untry(a), arith.untry(b)):
+                    return "A: minuend >= subtrahend follows from the dominating conditions and slice axioms"
+            else:
+                ua, ub = F.upper(arith.untry(a)), F.upper(arith.untry(b))
+                if ua is not None and ub is not None and ua + ub <= arith.TYMAX[aty]:
+                    return "A: sum <= %d + %d fits %s (bounds from dominating conditions and slice axioms)" % (ua, ub, aty)
+            return None
+        if s.kind == "call":
+            nm = s.what.split(":")[1]
+            args = [N(a) for a in t["args"]]
+            path = facts.strip_generics(t["callee"].get("path", ""))
+            if nm in ("split_at", "index") and ("core::slice" in path or "core::ops::Index" in path or "slice::index" in facts.strip_generics(t["callee"].get("resolved") or "")):
+                base = args[0]
+                ln = ("call", "core::slice::len", "core::slice::len", (base,), -1)
+                if nm == "split_at":
+                    F = arith.build(conds, [ln, args[1]], ex, unsigned=[args[1]])
+                    if F.proves_ge(ln, arith.untry(args[1])):
+                        return "A: split point <= len(slice) follows from the dominating conditions and slice axioms"
+                    return None
+                rng = args[1]
+                if rng[0] == "aggr" and rng[2] and rng[2].split("::")[-1] in ("Range", "RangeTo", "RangeFrom"):
+                    kind = rng[2].split("::")[-1]
+                    lo = rng[4][0] if kind in ("Range", "RangeFrom") else ("int", 0, "usize")
+                    hi = rng[4][-1] if kind in ("Range", "RangeTo") else ln
+                    F = arith.build(conds, [ln, lo, hi], ex, unsigned=[lo, hi])
+                    if F.proves_ge(ln, arith.untry(hi)) and F.proves_ge(arith.untry(hi), arith.untry(lo)):
+                        return "A: range bounds lo <= hi <= len(slice) follow from the dominating conditions and slice axioms"
+        return None
+
     def expand(self, S, e, depth=0):
         """replace singly-defined address-taken locals by their definition (for provenance questions only)"""
         if depth > 6 or not isinstance(e, tuple) or not e or not isinstance(e[0], str):
@@ -487,6 +602,8 @@ class Discharger:
         return not any(w == body.npath for w in self.chars_writers)
 
     def operand_ty(self, mir, o):
+        if o["k"] == "expr":
+            return o.get("ty")
         if o["k"] in ("copy", "move") and not o["place"]["proj"]:
             return mir.local_ty(o["place"]["l"])
         if o["k"] == "const":
